@@ -4,6 +4,7 @@ Workload: the template-directed generator over every template; the real serializ
 (eager) deserializer; oracles: value equality, byte identity with an independent struct-based
 reference encoder, and a template walker for the default-fill clause.
 """
+import copy as _copy
 from .. import env
 
 env.import_repo()
@@ -27,14 +28,14 @@ RULE = ("template-directed generation over all templates (every template in ever
         "unset variables. distinct_nontrivial = distinct (message, block-count vector, flags, #acks, #extra, unset set)"
         ". Round-5 additions: every third round trip, the datagram is decoded again the proxy's way (body on demand), one header property of the received message (extra bytes set / zeroed / cleared, ZEROCODED flipped, acks set / cleared, packet id, RELIABLE flipped, two edits at once; a fifth of them after the body was looked at) is changed and the message encoded again: it must decode to the same blocks with the edited header and equal the reference encoding. Every sixth case is repeated through a serializer / deserializer pair built on a caller-supplied template (hv/custom_template.py: same names, other wire types for ~20% of the variables), then the stock pair again. Which Fixed/Variable fields are text is the harness's own copy of the naming rule, not the template object's answer"
         ". Rounds 6-7: the same round trips through a pair built on a caller-supplied template file that is revised in place (same / older time stamp); shared serializer and deserializer called from four threads at once; a fingerprint of the stock template dictionary is compared after custom dictionaries were built"
-        ". Round 8: coordinates of a decoded message edited in place, then the same datagram decoded again (the second result is the datagram's)")
+        ". Round 8: coordinates of a decoded message edited in place, then the same datagram decoded again (the second result is the datagram's). Round 11: every third message is encoded through a deep copy of the built object (blocks marked for default filling included)")
 ASSUMPTIONS = [
     "value domain = the decoder's canonical Python forms: str without trailing NUL for text-named Variable fields, "
     "bytes otherwise; float32-representable F32s; NaN excluded; quaternion W derived from X,Y,Z",
     "the parsed template objects (message numbers, block kinds, variable types/sizes) are shared with the reference encoder",
     "zero-coded messages are kept under the decoder's 0x3000 expansion cap (the cap is C03's subject)",
 ]
-MUST_REACH = {
+MUST_REACH = {"copies_encoded_with_variables_left_to_default_filling": 100, 
     "roundtrips": 400, "templates_covered": 481, "zerocoded": 20, "with_acks": 20, "with_extra": 20,
     "fill_cases": 50, "fill_mixed_marks_in_one_list": 10, "failed_serializations_before_good_ones": 30, "serialized_twice": 100, "fill_unset_fixed": 1, "fill_unset_variable": 1, "omitted_trailing": 5, "count_255": 1, "count_0": 5,
     "ref_bytes_equal": 400, "roundtrips_custom_template": 300, "template_file_loads": 10, "decoded_coordinates_edited_in_place": 100, "calls_from_concurrent_threads": 500, "header_edits_on_received": 100, "header_edits_on_zerocoded": 10, "header_edits_after_body_parse": 10,
@@ -125,6 +126,9 @@ def _provoke_failure(ctx):
         ctx.count("bad_messages_accepted")
 
 
+_ROUTE = [0]
+
+
 def check_spec(ctx, spec):
     tmpl = _TD[spec["name"]]
     ctx.ev()
@@ -138,12 +142,28 @@ def check_spec(ctx, spec):
     # (a message somebody built wrongly); what it encodes afterwards must not depend on that
     if ctx.counters.get("roundtrips", 0) % 9 == 0:
         _provoke_failure(ctx)
+    # Round 11: what is encoded is, every third time, a copy of the message that was built (copy.deepcopy - what take() and
+    # every holder of a message for later make); a copy is the same message
+    is_copy = False
+    if _ROUTE[0] % 3 == 2:
+        try:
+            msg = _copy.deepcopy(msg)
+        except Exception as e:
+            ctx.violation("copy-raises", "copying an in-domain Message raised", {"spec": spec, "exc": repr(e)})
+            return
+        is_copy = True
+        ctx.count("copies_encoded")
+        if spec.get("fill"):
+            ctx.count("copies_encoded_with_variables_left_to_default_filling")
+    _ROUTE[0] += 1
     try:
         data = bytes(_ser.serialize(msg))
     except Exception as e:
         mech = "serialize-raises"
         if spec.get("fill"):
             mech = "serialize-raises-fill"
+        if is_copy:
+            mech += ":copy"
         ctx.violation(mech, "serializing an in-domain message raised", {"spec": spec, "exc": repr(e)})
         return
     if ctx.counters.get("roundtrips", 0) % 5 == 0:
